@@ -81,9 +81,13 @@ func runC18(c *Ctx) error {
 		if s, ok := sp.val.(string); ok {
 			params := []string{"k=" + s}
 			enc := "raw"
-			if r.Bool() {
+			switch r.Intn(3) {
+			case 0:
 				params[0] = "k=" + url.QueryEscape(s)
 				enc = "encoded"
+			case 1: // blanks as %20, everything else raw
+				params[0] = "k=" + strings.ReplaceAll(s, " ", "%20")
+				enc = "pct20"
 			}
 			for j := r.Intn(3); j > 0; j-- {
 				params = append(params, fmt.Sprintf("p%d=%d", j, j))
@@ -99,6 +103,42 @@ func runC18(c *Ctx) error {
 			desc["presentation"] = "url-bare-key"
 			w.Add(term, desc, "url-bare:"+sp.name)
 			w.Count("presentation.url-bare")
+		}
+	}
+	// ---- zero values: every rule other than required is skipped, through every presentation
+	for _, sp := range specimens {
+		rv := reflect.ValueOf(sp.val)
+		if rv.Kind() == reflect.Slice {
+			continue
+		}
+		zv := reflect.Zero(rv.Type())
+		var rules []string
+		for j, x := range sp.rules {
+			if j >= 6 {
+				break
+			}
+			marker++
+			rules = append(rules, fmt.Sprintf("%s|M%d", x.text, marker))
+		}
+		tag := strings.Join(rules, ",")
+		addz := func(call *walkCall, pres string) {
+			term, desc := call.caseTerm([]string{"SNil", "SNoPanic"})
+			desc["presentation"] = pres
+			desc["rules"] = tag
+			w.Add(term, desc, fmt.Sprintf("zero:%s:%s", pres, sp.name))
+			w.Count("presentation.zero-" + pres)
+		}
+		addz(&walkCall{Entry: "var", VarRules: rules, Src: zv.Interface()}, "var")
+		st := reflect.StructOf([]reflect.StructField{{Name: "F", Type: rv.Type(), Tag: tagOf(tag)}})
+		addz(&walkCall{Entry: "struct", Src: reflect.New(st).Interface()}, "struct")
+		mv := reflect.MakeMap(reflect.MapOf(reflect.TypeOf(""), rv.Type()))
+		mv.SetMapIndex(reflect.ValueOf("k"), zv)
+		addz(&walkCall{Entry: "map", Rules: map[string]string{"k": tag}, Src: mv.Interface()}, "map")
+		sl := reflect.MakeSlice(reflect.SliceOf(mv.Type()), 1, 1)
+		sl.Index(0).Set(mv)
+		addz(&walkCall{Entry: "map", Rules: map[string]string{"k": tag}, Src: sl.Interface()}, "slicemap")
+		if _, ok := sp.val.(string); ok {
+			addz(&walkCall{Entry: "url", Rules: map[string]string{"k": tag}, Src: "http://h.example/a?k=&z=1"}, "url")
 		}
 	}
 	// known findings replayed on the implementation
